@@ -69,7 +69,8 @@ def generate(seed, tier):
             "tolerance": rng.choice([None, None, 1e-3, 0.1, 1.0]), "check_every": rng.choice([1, 2, 3, 10]),
             "n_iter": rng.randint(2, 12 if tier == "quick" else 40),
             "rewire_at": rng.choice([None, None, 1, 2, 3]), "rewire_seed": rng.randint(0, 10**6),
-            "w_scale": rng.choice([None] * 5 + [1e-9, 1e-6, 1e4])}
+            "w_scale": rng.choice([None] * 5 + [1e-9, 1e-6, 1e4]),
+            "neighbours": rng.sample(["opposite", "bare", "rejected"], rng.randint(1, 3)) if rng.random() < 0.3 else None}
 
 
 # ------------------------------------------------------------------ brute force
@@ -236,6 +237,20 @@ def _fit(case, n_iter, h=None):
         model = HyMMSBM(K=K, u=u_in, w=w_in, assortative=case["assortative"],
                         max_hye_size=D if case["explicit_D"] else None,
                         u_prior=u_prior, w_prior=w_prior, seed=case["sut_seed"])
+        for kind in case.get("neighbours") or ():
+            # other models are constructed in the same process between this model's construction and its fit
+            # (one with the opposite pattern of supplied parameters, one rejected by the constructor)
+            try:
+                if kind == "opposite":
+                    HyMMSBM(K=K + 1, u=None if u_in is not None else np.full((N, K + 1), 0.5),
+                            w=None if w_in is not None else np.eye(K + 1), assortative=not case["assortative"],
+                            seed=case["sut_seed"])
+                elif kind == "bare":
+                    HyMMSBM(K=K + 1, assortative=True, seed=case["sut_seed"])
+                else:
+                    HyMMSBM(K=K + 2, u=np.full((N, K), 0.5), seed=case["sut_seed"])  # K contradicts u: rejected
+            except Exception:  # noqa
+                pass
         if case.get("tolerance") is not None:
             model.fit(h, n_iter=n_iter, tolerance=case["tolerance"], check_convergence_every=case.get("check_every", 10))
         else:
